@@ -20,7 +20,7 @@ TInit == CInit /\ l = 1 /\ TLCSet(1, 1)
 TReset ==
     /\ Ev("reset")
     /\ known' = {} /\ kids' = [b \in Blocks \cup {0} |-> <<>>] /\ tip' = 0
-    /\ utxo' = BaseUtxo /\ undo' = [h \in {} |-> {}] /\ nDeliv' = 0 /\ balOn' = TRUE /\ flushed' = {}
+    /\ utxo' = BaseUtxo /\ undo' = [h \in {} |-> {}] /\ nDeliv' = 0 /\ balOn' = 1 /\ flushed' = {}
     /\ last' = [accepted |-> FALSE, later |-> FALSE, viol |-> {}]
     /\ queue' = <<>> /\ datW' = {} /\ idxF' = <<>> /\ dbF' = 0 /\ oldF' = None /\ tmpF' = {}
     /\ saver' = Idle0 /\ writers' = {} /\ crashed' = FALSE /\ nSaves' = 0 /\ nCrashes' = 0 /\ panicked' = "" /\ wpc' = 0
